@@ -137,7 +137,7 @@ func runC17(c *Ctx) {
 		c.FaultConfigured("F-slow")
 	}
 	cs.LinkFor = func(nc int) *Link {
-		l := &Link{BaseLatency: time.Duration(pickFrom(t, 1, 2, 10, 40)) * time.Millisecond, Jitter: time.Duration(pickFrom(t, 0, 5, 30)) * time.Millisecond, Tape: t, Frag: t.Bool(1, 3)}
+		l := &Link{BaseLatency: time.Duration(pickFrom(t, 1, 2, 10, 40)) * time.Millisecond, Jitter: time.Duration(pickFrom(t, 0, 5, 30)) * time.Millisecond, Tape: t, Frag: t.Bool(1, 3), Coalesce: t.Bool(1, 2)}
 		if slowWrites {
 			l.SlowWrite = func(side int) time.Duration {
 				if side == 0 && t.Bool(1, 3) { // the client's writes
